@@ -184,27 +184,9 @@ package nsqd
 
 // DROP AT INTEGRATION (duplicate of zz_contracts_auth_verif.go, whose [codes] clause implies this one)
 
-// STUBS (TRUSTED) for the handlers outside area A (producer side, IDENTIFY/AUTH/SUB): only the error
-// discipline needed by Exec - every error they return is built by protocol.NewFatalClientErr /
-// protocol.NewClientErr (checked by reading: their only pass-through errors come from CheckAuth, proved
-// above, and readMPUB, whose returns are all NewFatalClientErr). To be replaced by their real contracts.
+// IDENTIFY / AUTH / SUB: verified contracts in zz_contracts_lcmds_verif.go (they keep the ghost lines
+// `onreturn cmdHandled := cmdHandled + 1` and, for IDENTIFY, `identifyCalls`).
 //@ ghost identifyCalls int
-//@ func (p *protocolV2) IDENTIFY(client *clientV2, params [][]byte) ([]byte, error)
-//@   trusted
-//@   props C09
-//@   ensures[errors] result1 != nil ==> typedErr(result1)
-//@   onreturn cmdHandled := cmdHandled + 1
-//@   onreturn identifyCalls := identifyCalls + 1
-//@ func (p *protocolV2) AUTH(client *clientV2, params [][]byte) ([]byte, error)
-//@   trusted
-//@   props C09
-//@   ensures[errors] result1 != nil ==> typedErr(result1)
-//@   onreturn cmdHandled := cmdHandled + 1
-//@ func (p *protocolV2) SUB(client *clientV2, params [][]byte) ([]byte, error)
-//@   trusted
-//@   props C09
-//@   ensures[errors] result1 != nil ==> typedErr(result1)
-//@   onreturn cmdHandled := cmdHandled + 1
 
 // IOLoop calls Exec only with at least the command word (bytes.Split never returns an empty slice).
 //@ func (p *protocolV2) Exec(client *clientV2, params [][]byte) ([]byte, error)
@@ -212,7 +194,18 @@ package nsqd
 //@   requires p != nil && p.nsqd != nil && client != nil && len(params) >= 1
 //@   requires[subscribed-has-channel] hasChannel(client)
 //@   requires[publish-context] validPubCtx(p, client)
+//   the connection and its buffered writer exist (newClientV2; IDENTIFY and AUTH answer on it themselves)
+//@   requires[connection] lConnOK(client)
+//@   requires[channel-usable] client.Channel != nil ==> lChanUsable(client.Channel)
 //@   ensures[errors-typed] result1 != nil ==> typedErr(result1)
 //@   ensures[unknown-command] cmdHandled == old(cmdHandled) ==> fatalErr(result1, "E_INVALID")
 //@   ensures[tls-required] curOpts(p.nsqd).TLSRequired != TLSNotRequired && old(client.TLS) != 1 && identifyCalls == old(identifyCalls) ==> fatalErr(result1, "E_INVALID") && cmdHandled == old(cmdHandled)
 //@   ensures[one-handler] cmdHandled == old(cmdHandled) || cmdHandled == old(cmdHandled) + 1
+// What IOLoop relies on from one command to the next: the connection keeps its socket, reader, writer, length
+// buffer and publish counters, and a consuming connection keeps its channel (every handler proves its share).
+//@   ensures[connection-kept] lConnOK(client) && validPubCtx(p, client)
+//@   ensures[channel-kept] hasChannel(client)
+//@   ensures[channel-usable] client.Channel != nil ==> lChanUsable(client.Channel)
+//   the command's outcome, for IOLoop's contract (ghosts in zz_contracts_lioloop_verif.go)
+//@   onreturn lExecCalls := lExecCalls + 1
+//@   onreturn lExecErr := result1
